@@ -31,7 +31,15 @@ type DiagnosticInfo struct {
 }
 
 func (d *DiagnosticInfo) Decode(b []byte) (int, error) {
+	return d.decodeNested(b, 0)
+}
+
+func (d *DiagnosticInfo) decodeNested(b []byte, level int) (int, error) {
+	if level >= MaxNestingLevel {
+		return 0, StatusBadEncodingLimitsExceeded
+	}
 	buf := NewBuffer(b)
+	buf.level = level + 1
 	d.EncodingMask = buf.ReadByte()
 	if d.Has(DiagnosticInfoSymbolicID) {
 		d.SymbolicID = buf.ReadInt32()
